@@ -694,6 +694,10 @@ func dynCorpus(add func(Input, string)) {
 	nsDel := func(n int) DynOp { return DynOp{Kind: "ns_del", Ns: n} }
 	ob := func(k string, ns, n, p int) DynOp { return DynOp{Kind: k, Ns: ns, Name: n, Proj: p} }
 	c := func(in DynIn, ops ...DynOp) { add(Input{Dyn: &in, DynOps: ops}, "corpus") }
+	// trigger F32 (recorded finding): the namespace stops matching between the monitor's initial
+	// namespace list and the start of its namespace informer
+	one := 1
+	add(Input{Dyn: &DynIn{Nss: []NsState{{1, true}}, Initial: []Obj{{1, 1, 1}}, GhostNs: &one}, DynOps: []DynOp{rd, ob("create", 1, 2, 5), rd}}, "trigger-F32")
 	// a namespace found by the initial list loses its label / is deleted while it holds objects
 	c(DynIn{Nss: []NsState{{1, true}}, Initial: []Obj{{1, 1, 1}}}, rd, nsSet(1, false), rd, ob("create", 1, 2, 2), rd)
 	c(DynIn{Nss: []NsState{{1, true}, {2, true}}, Initial: []Obj{{1, 1, 1}, {2, 1, 2}}}, nsDel(2), rd)
